@@ -382,37 +382,10 @@ pub enum Decoded {
     Attrs(Attributes),
 }
 
-/// Canonical text in which UniqueId values are replaced by the ordinal of
-/// their first appearance: decoders may regenerate colliding ids through
-/// `UniqueId::now()`, whose process-wide state is not part of what C13 states.
-fn canon_without_uid_values(dom: &WeakDom) -> String {
-    let text = spec::canon_dom(dom);
-    let mut out = String::with_capacity(text.len());
-    let mut seen: Vec<String> = Vec::new();
-    let mut rest = text.as_str();
-    while let Some(pos) = rest.find("UniqueId(UniqueId {") {
-        let (head, tail) = rest.split_at(pos);
-        out.push_str(head);
-        let end = tail.find("})").map(|e| e + 2).unwrap_or(tail.len());
-        let token = &tail[..end];
-        let idx = match seen.iter().position(|s| s == token) {
-            Some(i) => i,
-            None => {
-                seen.push(token.to_string());
-                seen.len() - 1
-            }
-        };
-        out.push_str(&format!("UniqueId#{}", idx));
-        rest = &tail[end..];
-    }
-    out.push_str(rest);
-    out
-}
-
 impl Decoded {
     pub fn digest(&self) -> u64 {
         match self {
-            Decoded::Dom(d) => crate::prng::digest_bytes(canon_without_uid_values(d).as_bytes()),
+            Decoded::Dom(d) => crate::prng::digest_bytes(spec::canon_without_uid_values(d).as_bytes()),
             Decoded::Attrs(a) => {
                 let mut s = String::new();
                 spec::canon_variant(&mut s, &Variant::Attributes(a.clone()), &|_| "?".into());
